@@ -577,6 +577,15 @@ def judge(ctx, mon, c, src, out):
         body = out[len(PRE):len(out) - len(POST)]
     br_ok = 'newline_to_br' in c['mods'] or c['fmt'] == 'multi-line'
     o2 = strip_br(body) if br_ok else body
+    if c['fmt'] and '<' in c['fmt']:
+        # author markup in a C-style format: its literal tags (<q>, </q>, <q/> - the value never contains
+        # "q>" or "q/>") may appear raw, at most as often as the format has them; any other "<" is the value's
+        for lit in re.findall(r'<[^<>%]*>', c['fmt']):
+            o2 = o2.replace(lit, '', c['fmt'].count(lit))
+            for m in c['mods']:
+                if m in ('upper', 'capitalize', 'lower'):
+                    o2 = o2.replace(getattr(lit, m)(), '', 1)
+        ctx.count('oracle:outputs judged with author markup in fmt=')
     hq = 'html_quote' in c['mods'] or c['fmt'] == 'html-quote'
     detail = {'source': src, 'value': c['value'], 'output': out[:300],
               'trace': [list(map(str, e)) for e in trace[-14:]]}
